@@ -55,14 +55,34 @@ def correspond(ctx):
             if 'z' in keys: iv['z'] = matrix(w['z'], (pr.N, 1), 'd')
             cand.append(('coneqp initvals=%s' % ''.join(sorted(keys)), dict(initvals=iv), False, False))
         rng.shuffle(cand)
+        cand = cand[:(4 if ctx.quick() else 6)]
+        if pr.p >= 1:
+            # only the lower triangle of P is read, whatever the KKT solver: junk above the diagonal with every solver name (the reduced
+            # systems of 'chol' / 'chol2' mix rows and columns of P when there are equality constraints)
+            ks = ['ldl', 'ldl2', 'chol'] + ([] if hasQS else ['chol2'])
+            for k in (ks if nocone or not ctx.quick() else [rng.choice(ks), 'chol']):
+                cand.append(('coneqp junk-upper-triangles kktsolver=%s' % k, dict(kktsolver=k), False, True))
         variants = []
-        for tag, kw, sp, junk in cand[:(4 if ctx.quick() else 6)]:
+        for tag, kw, sp, junk in cand:
             o = {'show_progress': False}
             if rng.random() < 0.5:
                 o['feastol'] = rng.choice([1e-5, 1e-7, 1e-8]); o['abstol'] = rng.choice([1e-5, 1e-7, 1e-9]); o['reltol'] = rng.choice([1e-4, 1e-6, 1e-8])
             c2, G2, h2, A2, b2, P2 = PR.to_cvx(cvxopt, pr, sparse=sp, junk=(random.Random(rng.random()) if junk else None))
             args = (P2, c2, None, None, None, A2, b2) if nocone else (P2, c2, G2, h2, dims, A2, b2)
-            variants.append((tag, (lambda args=args, kw=kw, o=o: quiet(solvers.coneqp, *args, options=o, **kw)), o))
+            def run(args=args, kw=kw, o=o, junk=junk, tag=tag):
+                try: return quiet(solvers.coneqp, *args, options=o, **kw)
+                except Exception as e:
+                    if not junk: raise
+                    # junk above the diagonal of P (G, h) made the call fail: does the same call without the junk succeed?
+                    cc, Gc, hc, Ac, bc, Pc = PR.to_cvx(cvxopt, pr)
+                    a2 = (Pc, cc, None, None, None, Ac, bc) if nocone else (Pc, cc, Gc, hc, dims, Ac, bc)
+                    try: r0 = quiet(solvers.coneqp, *a2, options=o, **kw)
+                    except Exception: raise e
+                    if r0['status'] == 'optimal':
+                        ctx.violation('c03:upper-triangle-read:%s' % type(e).__name__, "%s raised %s (%s) although the same call with a symmetric P is solved: the unreferenced upper triangle was read"
+                                      % (tag, type(e).__name__, e), {'presentation': tag, 'dims': dims, 'P': pr.P, 'q': pr.c, 'G': pr.G, 'h': pr.h, 'A': pr.A, 'b': pr.b})
+                    raise
+            variants.append((tag, run, o))
         if not hasQS and not nocone:
             o = {'show_progress': False}
             variants.append(('qp', lambda: quiet(solvers.qp, P, c, G, h, A, b, options=o), o))
